@@ -91,6 +91,7 @@ func runC04(c *core.Ctx) {
 		c04RuleE(e, r)
 		c04RuleH(e, r)
 		c04RuleI(e, r)
+		c04RuleN(e, r)
 	}
 	c.Floor("R04a", 4, "2 readers x (candidate marking, delivery)")
 	c.Floor("R04b", 6, "XML element + attribute advance, JSON 4 element creations")
@@ -1456,6 +1457,63 @@ func c04RuleI(e *c04Env, r *c04Reader) {
 			c.Bad("R04i", key, badPos, "this decision is also control dependent on a condition over "+bad+", which is neither the cursor/candidate identity, nor the presence of an expression, nor the result of an xpath query: whether a node is selected no longer depends only on the target xpath")
 		} else {
 			c.OK("R04i", key, core.InstrPos(s.in), "controlled only by cursor/candidate identity, expression presence and query results")
+		}
+	}
+}
+
+// ---------------------------------------------------------------- R04n
+
+// c04RuleN: whether the candidate check is invoked for a node may depend on the kind of token being processed and on
+// the cursor / candidate / expression fields, but on no other field of the reader: a field the reader fills while
+// reading (the element name of the first record, a nesting depth, a section flag) makes the selection of a node depend
+// on what came before it (seeds C17-13, C10-12, C04-16/17 attack the same clause inside the check itself, where R04i sees
+// it; this rule covers the call sites).
+func c04RuleN(e *c04Env, r *c04Reader) {
+	c := e.c
+	for _, m := range r.methods {
+		if r.checkFn[m] {
+			continue
+		}
+		for _, ci := range core.Calls(m) {
+			cf := c04Callee(ci)
+			if cf == nil || !r.checkFn[cf] {
+				continue
+			}
+			key := core.FuncKey(m) + " invokes the candidate check independently of learned reader state"
+			bad := ""
+			var badPos token.Pos
+			for _, ed := range e.cd(m).controlling(ci.Block()) {
+				ifi := ed.ifInstr()
+				if ifi == nil {
+					continue
+				}
+				if c04DependsOn(ifi.Cond, func(v ssa.Value) bool {
+					f, _ := c04FieldLoad(v)
+					if f == nil || !e.readerField(r.tn, f) {
+						return false
+					}
+					if f == r.cur || f == r.holder {
+						return false
+					}
+					if pkg, name := c04NamedPath(f.Type()); pkg == "github.com/antchfx/xpath" && name == "Expr" {
+						return false
+					}
+					// the decoder and other helper objects are not learned state: only plain data fields count
+					switch f.Type().Underlying().(type) {
+					case *types.Basic, *types.Struct, *types.Slice, *types.Map:
+						bad = f.Name()
+						return true
+					}
+					return false
+				}) {
+					badPos = core.InstrPos(ifi)
+				}
+			}
+			if bad != "" {
+				c.Bad("R04n", key, badPos, "whether the candidate check runs for this node depends on reader field "+bad+", which the reader fills while reading: a node is selected or skipped depending on what preceded it, and a skipped node is neither delivered nor removed")
+			} else {
+				c.OK("R04n", key, core.InstrPos(ci), "controlled by the token kind and the cursor / candidate / expression fields only")
+			}
 		}
 	}
 }
